@@ -1535,7 +1535,9 @@ class nx_learn_dst_load (nx_learn_spec_dst):
     self.data = data
 
   def __len__ (self):
-    return ((self.n_bits+15) // 16) * 2
+    # Field header and offset, like a match destination (the value being
+    # loaded belongs to the source part of the spec).
+    return 6
 
 
 class nx_learn_dst_output (nx_learn_spec_dst):
